@@ -81,6 +81,11 @@ func (fe *FuncEnc) callStatic(f *Frame, callee *ssa.Function, args []Term, argVa
 	if !isRepo {
 		return fe.callStub(f, callee, args, argVals, st, path, pos)
 	}
+	for _, av := range argVals {
+		if isVarargsSlice(av) && fe.eng.sorts.sortOf(av.Type().Underlying().(*types.Slice).Elem()) == SVal {
+			engErr("%s: a Go-level variadic interface list is passed to %s (not modelled)", fe.name, name)
+		}
+	}
 	if f.mon != nil {
 		if res, handled := fe.monCall(f, callee, name, args, st, path, pos); handled {
 			return res
@@ -311,10 +316,14 @@ func (fe *FuncEnc) doAppend(f *Frame, x *ssa.Call, st *State, path Term) {
 	}
 	b = fe.valAs(c.Args[1], x.Type())
 	e := fe.comp(st, comp, arrSort(SInt, arrSort(SInt, es)))
+	esrc := e
+	if es == SVal && isVarargsSlice(c.Args[1]) {
+		esrc = fe.comp(st, "EV_Val", arrSort(SInt, arrSort(SInt, es)))
+	}
 	n := fe.define("n", tAdd(slLen(a), slLen(b)))
 	inplace := fe.define("inplace", tLe(n, slCap(a)))
 	// contents of the appended run
-	src := func(k Term) Term { return tSelect(tSelect(e, slRef(b)), tAdd(slOff(b), k)) }
+	src := func(k Term) Term { return tSelect(tSelect(esrc, slRef(b)), tAdd(slOff(b), k)) }
 	// in-place row
 	var rowIn Term
 	oldRow := tSelect(e, slRef(a))
@@ -328,7 +337,7 @@ func (fe *FuncEnc) doAppend(f *Frame, x *ssa.Call, st *State, path Term) {
 	} else {
 		rowIn = fe.fresh("rowIn", arrSort(SInt, es))
 		fe.assume(tBool(true), Term{fmt.Sprintf("(forall ((j Int)) (! (= (select %s j) (ite (and (<= %s j) (< j (+ %s (s.len %s)))) (select (select %s (s.ref %s)) (+ (s.off %s) (- j %s))) (select %s j))) :pattern ((select %s j))))",
-			rowIn.S, base.S, base.S, b.S, e.S, b.S, b.S, base.S, oldRow.S, rowIn.S), SBool})
+			rowIn.S, base.S, base.S, b.S, esrc.S, b.S, b.S, base.S, oldRow.S, rowIn.S), SBool})
 	}
 	// fresh row
 	aset := "A_E_" + sortKey(es)
@@ -338,8 +347,12 @@ func (fe *FuncEnc) doAppend(f *Frame, x *ssa.Call, st *State, path Term) {
 	fe.assume(tBool(true), tAnd(tLt(tInt(0), nref), tNot(tSelect(al, nref)), tLe(n, ncap), tLt(ncap, Term{"4611686018427387904", SInt})))
 	rowNew := fe.fresh("rowNew", arrSort(SInt, es))
 	fe.assume(tBool(true), Term{fmt.Sprintf("(forall ((j Int)) (! (=> (and (<= 0 j) (< j %s)) (= (select %s j) (ite (< j (s.len %s)) (select %s (+ (s.off %s) j)) (select (select %s (s.ref %s)) (+ (s.off %s) (- j (s.len %s))))))) :pattern ((select %s j))))",
-		n.S, rowNew.S, a.S, oldRow.S, a.S, e.S, b.S, b.S, a.S, rowNew.S), SBool})
-	fe.appendCellCheck(f, elemT, b, e, st, path, x.Pos())
+		n.S, rowNew.S, a.S, oldRow.S, a.S, esrc.S, b.S, b.S, a.S, rowNew.S), SBool})
+	constN := int64(-1)
+	if N, ok := constLenVarargs(c.Args[1]); ok && N <= 8 {
+		constN = N
+	}
+	fe.appendCellCheck(f, elemT, b, esrc, constN, st, path, x.Pos())
 	fe.setComp(st, comp, tIte(inplace, tStore(e, slRef(a), rowIn), tStore(e, nref, rowNew)))
 	fe.setComp(st, aset, tIte(inplace, al, tStore(al, nref, tBool(true))))
 	fe.setVal(x, tIte(inplace, mkSlice(slRef(a), slOff(a), n, slCap(a)), mkSlice(nref, tInt(0), n, ncap)))
@@ -701,7 +714,7 @@ func (e *Engine) storeComps(v ssa.Value, d map[string]bool) {
 		case *types.Slice:
 			d["E_"+sortKey(so.sortOf(t.Elem()))] = true
 		case *types.Pointer:
-			d["E_"+sortKey(so.sortOf(t.Elem().Underlying().(*types.Array).Elem()))] = true
+			d[e.arrayComp(x.X, so.sortOf(t.Elem().Underlying().(*types.Array).Elem()))] = true
 		}
 		return
 	}
@@ -756,7 +769,7 @@ func (e *Engine) blockWrites(fn *ssa.Function, b *ssa.BasicBlock, d map[string]b
 			elem := x.Type().Underlying().(*types.Pointer).Elem()
 			if arr, ok := elem.Underlying().(*types.Array); ok {
 				d["A_E_"+sortKey(so.sortOf(arr.Elem()))] = true
-				d["E_"+sortKey(so.sortOf(arr.Elem()))] = true
+				d[e.arrayComp(x, so.sortOf(arr.Elem()))] = true
 			} else if n, ok := elem.(*types.Named); ok && so.isRepoType(n) {
 				if stt, ok := n.Underlying().(*types.Struct); ok {
 					d["A_H_"+sanitize(so.shortTypeName(n))] = true
@@ -841,4 +854,23 @@ func (e *Engine) blockWrites(fn *ssa.Function, b *ssa.BasicBlock, d map[string]b
 			}
 		}
 	}
+}
+
+// arrayComp: the component holding the cells of an array allocation.  Go-level variadic argument lists of
+// interface type (fmt operands) live apart from Borno arrays so that the latter can carry a cell invariant.
+func (e *Engine) arrayComp(v ssa.Value, es Sort) string {
+	if es == SVal && isVarargsAlloc(v) {
+		return "EV_Val"
+	}
+	return "E_" + sortKey(es)
+}
+
+func isVarargsAlloc(v ssa.Value) bool {
+	al, ok := v.(*ssa.Alloc)
+	return ok && al.Comment == "varargs"
+}
+
+func isVarargsSlice(v ssa.Value) bool {
+	sl, ok := v.(*ssa.Slice)
+	return ok && isVarargsAlloc(sl.X)
 }
